@@ -30,6 +30,7 @@ import (
 	"net/textproto"
 	"strconv"
 	"strings"
+	"sync"
 	"sync/atomic"
 	"time"
 
@@ -37,18 +38,56 @@ import (
 )
 
 type hostile struct {
-	l      net.Listener
+	// connectMode: what a CONNECT request (the connect gun's tunnel set-up) is answered with:
+	// "" 200 | c403 a refusal with a body | cgarbage not HTTP | cextra 200 followed by stray bytes | cclose nothing
+	connectMode string
+	l           net.Listener
 	Addr   string
 	Hits   atomic.Int64
 	closed chan struct{}
 }
 
-func newHostile() *hostile {
-	l, err := net.Listen("tcp", "127.0.0.1:0")
-	if err != nil {
-		panic(err)
+// listenRetry: the machine runs many checks at once, each opening thousands of short connections; when no port is
+// free at the moment, wait instead of failing.
+func listenRetry() net.Listener {
+	var err error
+	for i := 0; i < 150; i++ {
+		var l net.Listener
+		if l, err = net.Listen("tcp", "127.0.0.1:0"); err == nil {
+			return l
+		}
+		time.Sleep(200 * time.Millisecond)
 	}
-	t := &hostile{l: l, Addr: l.Addr().String(), closed: make(chan struct{})}
+	panic(err)
+}
+
+var (
+	sharedMu      sync.Mutex
+	sharedTargets = map[string]*hostile{}
+)
+
+// sharedHostile: ONE listener per connect mode for the whole driver process. The target is a pure function of the
+// request (the script travels in a header), so all runs can use the same one; a listener per run would leave
+// thousands of ports in TIME_WAIT.
+func sharedHostile(connectMode string) *hostile {
+	sharedMu.Lock()
+	defer sharedMu.Unlock()
+	// a few listeners per mode, used in turn: more (address, port) pairs for the clients' short connections
+	sharedTurn++
+	key := fmt.Sprintf("%s#%d", connectMode, sharedTurn%8)
+	if t := sharedTargets[key]; t != nil {
+		return t
+	}
+	t := newHostileMode(connectMode)
+	sharedTargets[key] = t
+	return t
+}
+
+var sharedTurn int
+
+func newHostileMode(connectMode string) *hostile {
+	l := listenRetry()
+	t := &hostile{connectMode: connectMode, l: l, Addr: l.Addr().String(), closed: make(chan struct{})}
 	go func() {
 		for {
 			c, err := l.Accept()
@@ -111,6 +150,19 @@ func (t *hostile) handle(c net.Conn) {
 			return
 		}
 		if req.Method == "CONNECT" {
+			switch t.connectMode {
+			case "c403":
+				_, _ = io.WriteString(c, "HTTP/1.1 403 Forbidden\r\nContent-Length: 9\r\nX-Why: \xff\x00\r\n\r\nno tunnel")
+				return
+			case "cgarbage":
+				_, _ = io.WriteString(c, "SSH-2.0-OpenSSH_9.9\r\n")
+				return
+			case "cextra":
+				_, _ = io.WriteString(c, "HTTP/1.1 200 Connection established\r\n\r\nstray bytes before any request")
+				continue
+			case "cclose":
+				return
+			}
 			_, _ = io.WriteString(c, "HTTP/1.1 200 Connection established\r\n\r\n")
 			continue
 		}
